@@ -16,22 +16,30 @@ COMMON = r'''
 #endif
 /* A spec may `#define VF_SEQ_EXACT <N>` before including gen.h: vf_seq find/erase then are exact (their loops have a
    constant trip count N and no loop contract; an assertion checks that lengths stay <= N). Default: loop contracts
-   that only keep indices in range (element values after erase, first-occurrence of find are then unknown). */
+   that only keep indices in range (element values after erase, first-occurrence of find are then unknown).
+   `#define VF_SET_EXACT <N>` does the same for vf_set find/erase (and hence insert/count/contains). */
 #ifndef VF_ICAP
 #define VF_ICAP 4         /* capacity of every boost::intrusive::list model (model bound) */
 #endif
 typedef void (*vf_fnptr)(void);
 typedef long vf_str;        /* opaque string id: equality only */
+typedef int vf_excptr;      /* std::exception_ptr: kind of the stored exception (0 = null, else a VF_EXC_* constant) */
 #define VF_STR_EMPTY ((vf_str)0)
 struct vf_fn { vf_fnptr fn; void* env; };
+struct vf_lock { _Bool owns; }; /* std::unique_lock / lock_guard: ownership flag only, locking is not modelled */
 struct vf_mt19937 { unsigned long opaque_state; }; /* std::mt19937: only its operator() (assumed callee) is used */
 extern int vf_exc;          /* 0 = no exception in flight; VF_EXC_* otherwise (exception model) */
 #define VF_EXC_ABORT 1
 #define VF_ABORT() (vf_exc = VF_EXC_ABORT)
+#define VF_CMP3(a, b) ((a) < (b) ? -1 : ((a) > (b) ? 1 : 0)) /* builtin operator<=> ; std::strong_ordering -> int */
 #ifdef VF_CANARY
 #define VF_CANARY_POINT __CPROVER_assert(0, "vf canary: must fail (the call returns under its precondition)")
 #else
 #define VF_CANARY_POINT ((void)0)
+#endif
+vf_str nondet_vf_str(void);
+#ifndef VF_STRLIT
+#define VF_STRLIT(s) nondet_vf_str() /* string literal: an arbitrary id (string contents are outside the subset) */
 #endif
 /* constant-trip loops of the models, unrolled by the preprocessor (goto-instrument --dfcc --apply-loop-contracts rejects
    writes to the counter of a loop that has no loop contract): VF_FOR_CAP(stmt using i) runs stmt for i = 0 .. VF_CAP-1 */
@@ -313,7 +321,54 @@ static inline struct vf_seq_%(G)s vf_seq_%(G)s_make_n(size_t n) { struct vf_seq_
 static inline struct vf_seq_%(G)s vf_seq_%(G)s_make_fill(size_t n, %(T)s v) { struct vf_seq_%(G)s s = vf_seq_%(G)s_make(); __CPROVER_assume(n <= VF_CAP); VF_FOR_CAP(if (i < n) s.d[i] = v;) s.n = n; return s; }
 static inline void vf_seq_%(G)s_resize(struct vf_seq_%(G)s* s, size_t n) { __CPROVER_assume(s->h + n <= s->cap); VF_FOR_CAP(if (s->n + i < n) memset(&s->d[s->h + s->n + i], 0, sizeof(%(T)s));) s->n = n; }
 static inline void vf_seq_%(G)s_resize_fill(struct vf_seq_%(G)s* s, size_t n, %(T)s v) { __CPROVER_assume(n <= VF_CAP && s->h + n <= s->cap); VF_FOR_CAP(if (s->n <= i && i < n) s->d[s->h + i] = v;) s->n = n; }
+static inline void vf_seq_%(G)s_assign_fill(struct vf_seq_%(G)s* s, size_t n, %(T)s v) { __CPROVER_assume(n <= s->cap && n <= VF_CAP); s->h = 0; VF_FOR_CAP(if (i < n) s->d[i] = v;) s->n = n; }
 static inline struct vf_seq_%(G)s vf_seq_%(G)s_copy(const struct vf_seq_%(G)s* o) { struct vf_seq_%(G)s s = vf_seq_%(G)s_make(); __CPROVER_assume(o->n <= VF_CAP); VF_FOR_CAP(if (i < o->n) s.d[i] = o->d[o->h + i];) s.n = o->n; return s; }
+'''
+
+SEQ_FILL = r'''
+static inline void vf_seq_%(G)s_resize_fill_deep(struct vf_seq_%(G)s* s, size_t n, %(T)s v) { __CPROVER_assume(s->h + n <= s->cap); for (size_t i = s->n; i < n; i++) { s->d[s->h + i] = %(COPYV)s; } s->n = n; }
+'''
+
+# std::list::sort / unique on scalar elements (emitted only for the instances that use them). Insertion sort (stable, as
+# list::sort). The loops run over the LENGTH of the list (no loop contracts: they are unwound by the harness, with
+# unwinding assertions, to a bound the harness chooses).
+SEQ_SORT = r'''
+static inline void vf_seq_%(G)s_sort_asc(struct vf_seq_%(G)s* s)
+{
+  for (size_t i = 1; i < s->n; i++) { %(T)s v = s->d[s->h + i]; size_t j = i; while (j > 0 && v < s->d[s->h + j - 1]) { s->d[s->h + j] = s->d[s->h + j - 1]; j--; } s->d[s->h + j] = v; }
+}
+static inline void vf_seq_%(G)s_sort_desc(struct vf_seq_%(G)s* s)
+{
+  for (size_t i = 1; i < s->n; i++) { %(T)s v = s->d[s->h + i]; size_t j = i; while (j > 0 && v > s->d[s->h + j - 1]) { s->d[s->h + j] = s->d[s->h + j - 1]; j--; } s->d[s->h + j] = v; }
+}
+static inline void vf_seq_%(G)s_unique(struct vf_seq_%(G)s* s)
+{
+  size_t w = 0;
+  for (size_t i = 0; i < s->n; i++) { if (w == 0 || !(s->d[s->h + w - 1] == s->d[s->h + i])) { s->d[s->h + w] = s->d[s->h + i]; w++; } }
+  s->n = w;
+}
+'''
+
+
+# only for scalar element types (builtin <): std::min_element / max_element / sort on ranges of at most VF_CAP elements
+SEQ_SCALAR = r'''
+static inline %(T)s* vf_seq_%(G)s_min_element_in(%(T)s* b, %(T)s* e) { size_t cnt = (size_t)(e - b); __CPROVER_assume(cnt <= VF_CAP); size_t best = 0; for (size_t i = 1; i < VF_CAP; i++) { if (i < cnt && b[i] < b[best]) best = i; } return b + best; }
+static inline %(T)s* vf_seq_%(G)s_max_element_in(%(T)s* b, %(T)s* e) { size_t cnt = (size_t)(e - b); __CPROVER_assume(cnt <= VF_CAP); size_t best = 0; for (size_t i = 1; i < VF_CAP; i++) { if (i < cnt && b[best] < b[i]) best = i; } return b + best; }
+static inline void vf_seq_%(G)s_sort_in(%(T)s* b, %(T)s* e, int desc)
+{ /* insertion sort: result is the sorted permutation (what std::sort guarantees for a strict weak order on scalars) */
+  size_t cnt = (size_t)(e - b);
+  __CPROVER_assume(cnt <= VF_CAP);
+  for (size_t i = 1; i < VF_CAP; i++) {
+    if (i < cnt) {
+      %(T)s v = b[i];
+      size_t j = i;
+      for (size_t k = 0; k < VF_CAP; k++) {
+        if (j > 0 && (desc ? (b[j - 1] < v) : (v < b[j - 1]))) { b[j] = b[j - 1]; j--; }
+      }
+      b[j] = v;
+    }
+  }
+}
 '''
 
 MINMAX = {
@@ -336,14 +391,20 @@ static inline void vf_set_%(G)s_clear(struct vf_set_%(G)s* s) { s->n = 0; }
 static inline %(T)s* vf_set_%(G)s_begin(struct vf_set_%(G)s* s) { return s->k; }
 static inline %(T)s* vf_set_%(G)s_end(struct vf_set_%(G)s* s) { return s->k + s->n; }
 static inline struct vf_set_%(G)s vf_set_%(G)s_make(void) { struct vf_set_%(G)s s; s.k = (%(T)s*)malloc(sizeof(%(T)s) * VF_CAP); __CPROVER_assume(s.k != 0); s.n = 0; s.cap = VF_CAP; return s; }
+static inline struct vf_set_%(G)s vf_set_%(G)s_copy(const struct vf_set_%(G)s* o) { struct vf_set_%(G)s s = vf_set_%(G)s_make(); __CPROVER_assume(o->n <= VF_CAP); for (size_t i = 0; i < VF_CAP; i++) { if (i < o->n) s.k[i] = o->k[i]; } s.n = o->n; return s; }
 static inline %(T)s* vf_set_%(G)s_find(struct vf_set_%(G)s* s, %(T)s v)
 {
   size_t i = 0;
+#ifdef VF_SET_EXACT /* exact variant with a CHECKED bound: unrolled, no loop contract (position of v, or n) */
+  __CPROVER_assert(s->n <= VF_SET_EXACT, "vf_set find: size within VF_SET_EXACT");
+/*SET_EXACT_FIND*/
+#else
   while (i < s->n && !(s->k[i] == v))
     __CPROVER_assigns(i)
     __CPROVER_loop_invariant(i <= s->n)
     __CPROVER_decreases(s->n - i)
   { i++; }
+#endif
   return s->k + i;
 }
 static inline size_t vf_set_%(G)s_count(struct vf_set_%(G)s* s, %(T)s v) { return vf_set_%(G)s_find(s, v) != s->k + s->n; }
@@ -361,15 +422,24 @@ static inline size_t vf_set_%(G)s_erase(struct vf_set_%(G)s* s, %(T)s v)
   %(T)s* p = vf_set_%(G)s_find(s, v);
   if (p == s->k + s->n) return 0;
   size_t i = (size_t)(p - s->k);
+#ifdef VF_SET_EXACT /* exact variant: the tail is shifted element by element (order of the other keys kept) */
+/*SET_EXACT_ERASE*/
+#else
   for (size_t j = i; j + 1 < s->n; j++)
     __CPROVER_assigns(j, __CPROVER_object_whole(s->k))
     __CPROVER_loop_invariant(i <= j && j < s->n)
     __CPROVER_decreases(s->n - j)
   { s->k[j] = s->k[j + 1]; }
+#endif
   s->n--;
   return 1;
 }
 '''
+
+_sfind = "".join("#if VF_SET_EXACT > %d\n  if (i == %d && i < s->n && !(s->k[i] == v)) i = %d;\n#endif\n" % (j, j, j + 1) for j in range(EXACT_MAX))
+_serase = "".join("#if VF_SET_EXACT > %d\n  if (i <= %d && %d < s->n) s->k[%d] = s->k[%d];\n#endif\n" % (j + 1, j, j + 1, j, j + 1) for j in range(EXACT_MAX))
+_sguard = "#if VF_SET_EXACT > %d\n#error \"VF_SET_EXACT too large for the unrolled models\"\n#endif\n" % EXACT_MAX
+SET = SET.replace("/*SET_EXACT_FIND*/\n", _sguard + _sfind).replace("/*SET_EXACT_ERASE*/\n", _serase)
 
 MAP = r'''
 /* ---- model of std::map/unordered_map<%(A)s,%(B)s>: distinct keys, entries e[0..n) ---- */
@@ -378,6 +448,7 @@ struct vf_map_%(G)s { struct vf_pair_%(G)s* e; size_t n; size_t cap; };
 static inline size_t vf_map_%(G)s_size(const struct vf_map_%(G)s* s) { return s->n; }
 static inline _Bool vf_map_%(G)s_empty(const struct vf_map_%(G)s* s) { return s->n == 0; }
 static inline void vf_map_%(G)s_clear(struct vf_map_%(G)s* s) { s->n = 0; }
+static inline struct vf_map_%(G)s vf_map_%(G)s_make(void) { struct vf_map_%(G)s s; s.e = (struct vf_pair_%(G)s*)malloc(sizeof(struct vf_pair_%(G)s) * VF_CAP); __CPROVER_assume(s.e != 0); s.n = 0; s.cap = VF_CAP; return s; }
 static inline struct vf_pair_%(G)s* vf_map_%(G)s_begin(struct vf_map_%(G)s* s) { return s->e; }
 static inline struct vf_pair_%(G)s* vf_map_%(G)s_end(struct vf_map_%(G)s* s) { return s->e + s->n; }
 static inline struct vf_pair_%(G)s* vf_map_%(G)s_find(struct vf_map_%(G)s* s, %(A)s k)
@@ -534,6 +605,14 @@ def gen_funcs(tm, lib):
         eq = ("memcmp(&b[i], &v, sizeof(%s)) == 0" % t) if is_structy(t) else "b[i] == v"
         out.append((SEQ % {"G": tag, "T": t, "EQ": eq}).split("/*FUNCS*/")[1])
         out.append(SEQ_EXTRA % {"G": tag, "T": t})
+        if not is_structy(t) and not t.endswith("*"):
+            out.append(SEQ_SCALAR % {"G": tag, "T": t})
+        # resize(n, v): every new element is a COPY of v (a deep one when the elements are themselves sequences)
+        copyv = "vf_seq_%s_copy(&v)" % t[len("struct vf_seq_"):] if t.startswith("struct vf_seq_") else "v"
+        if t.startswith("struct vf_seq_"):
+            out.append(SEQ_FILL % {"G": tag, "T": t, "COPYV": copyv})
+        if ("seq_sort", tag) in lib.need:
+            out.append(SEQ_SORT % {"G": tag, "T": t})
     for tag, t in tm.set_insts.items():
         out.append((SET % {"G": tag, "T": t}).split("/*FUNCS*/")[1])
     for tag, (a, b) in tm.map_insts.items():
